@@ -231,23 +231,75 @@ theorem c14_scheme_table (h p : Bytes) :
     (Proxy.url ⟨.SOCKS5, h, p⟩ = some ([115, 111, 99, 107, 115, 53], joinHostPort h p)) := by
   refine ⟨rfl, rfl, rfl, rfl, rfl, rfl, rfl⟩
 
-/-- a well-formed `<keyword> <host>:<port>` entry is mapped to exactly that keyword, host and port. -/
-theorem c14_wellformed_entry (k h p : Bytes) (hk : isKeyword k = true)
+/-- a well-formed `<keyword> <host>:<port>` entry (host name or IPv4 literal) is accepted and mapped
+    to exactly that keyword, host and port … -/
+theorem c14_wellformed_entry (k h p : Bytes) (hk : isKeyword k = true) (hne : h ≠ [])
     (hh : ∀ c ∈ h, isHostChar c = true) (hp : validPort p = true) :
     parseProxy (k ++ 32 :: (h ++ 58 :: p)) = some ⟨parseMode k, h, p⟩ :=
-  parseProxy_wellformed k h p hk hh hp
+  parseProxy_wellformed k h p hk hne hh hp
+
+/-- … and so is `<keyword> [<IPv6 literal>]:<port>`; the host is the literal without its brackets. -/
+theorem c14_wellformed_entry_v6 (k h p : Bytes) (hk : isKeyword k = true) (hne : h ≠ [])
+    (hh : ∀ c ∈ h, isHexColonDot c = true) (hp : validPort p = true) :
+    parseProxy (k ++ 32 :: 91 :: (h ++ 93 :: 58 :: p)) = some ⟨parseMode k, h, p⟩ :=
+  parseProxy_wellformed_v6 k h p hk hne hh hp
 
 example : proxiesAll ([80, 82, 79, 88, 89, 32, 97, 58, 56, 48, 59, 32, 83, 79, 67, 75, 83, 53, 32, 91, 58, 58, 49, 93, 58, 49, 48, 56, 48, 59, 68, 73, 82, 69, 67, 84] : Bytes) /- "PROXY a:80; SOCKS5 [::1]:1080;DIRECT" -/ =
     some [⟨.PROXY, [97], [56, 48]⟩, ⟨.SOCKS5, [58, 58, 49], [49, 48, 56, 48]⟩, ⟨.DIRECT, [], []⟩] := by decide
 
-/-- what is rejected: an entry (blanks trimmed, not empty, not `DIRECT`) without a blank, or whose
-    address part `net.SplitHostPort` refuses … -/
+example : isKeyword kSOCKS5 = true ∧ validPort ([54, 53, 53, 51, 53] : Bytes) /- "65535" -/ = true ∧
+    validPort ([48, 48, 48, 48, 56, 48] : Bytes) /- "000080" -/ = true ∧
+    parseProxy ([83, 79, 67, 75, 83, 53, 32, 91, 50, 48, 48, 49, 58, 100, 98, 56, 58, 58, 49, 93, 58, 54, 53, 53, 51, 53] : Bytes) /- "SOCKS5 [2001:db8::1]:65535" -/ =
+      some ⟨.SOCKS5, ([50, 48, 48, 49, 58, 100, 98, 56, 58, 58, 49] : Bytes) /- "2001:db8::1" -/, ([54, 53, 53, 51, 53] : Bytes) /- "65535" -/⟩ := by decide
+
+/-- the port check of the code, `strconv.ParseUint(port, 10, 16)`, succeeds exactly on the decimal
+    numbers up to 65535: at least one character, ASCII digits only (no sign, no `_`, no blank),
+    value ≤ 65535 — for digit strings of any length (leading zeros do not count, a long string with
+    a value out of range is refused). -/
+theorem c14_port_check (p : Bytes) :
+    (parseUint16 p).isSome = true ↔ (p ≠ [] ∧ (∀ c ∈ p, isDigit c = true) ∧ decVal p ≤ 65535) := by
+  rw [parseUint16_isSome]
+  unfold validPort
+  cases p with
+  | nil => simp
+  | cons c t => simp [Bool.and_eq_true, List.all_eq_true, decide_eq_true_eq, and_assoc]
+
+example : (parseUint16 ([54, 53, 53, 51, 53] : Bytes) /- "65535" -/).isSome = true ∧ (parseUint16 ([48] : Bytes) /- "0" -/).isSome = true ∧
+    (parseUint16 ([48, 48, 48, 48, 56, 48] : Bytes) /- "000080" -/).isSome = true ∧
+    (parseUint16 ([48, 48, 48, 48, 48, 48, 48, 48, 48, 48, 48, 48, 48, 48, 48, 48, 48, 48, 48, 48, 48, 48, 48, 48, 48, 48, 48, 56, 48] : Bytes) /- "00000000000000000000000000080" -/).isSome = true ∧
+    (parseUint16 ([54, 53, 53, 51, 54] : Bytes) /- "65536" -/).isSome = false ∧ (parseUint16 ([57, 57, 57, 57, 57] : Bytes) /- "99999" -/).isSome = false ∧
+    (parseUint16 ([49, 48, 48, 48, 48, 48] : Bytes) /- "100000" -/).isSome = false ∧
+    (parseUint16 ([49, 48, 48, 48, 48, 48, 48, 48, 48, 48, 48, 48, 48, 48, 48, 48, 48, 48, 48, 48, 48, 48, 48, 48, 48, 48, 48, 48, 48, 48] : Bytes) /- "100000000000000000000000000000" -/).isSome = false ∧
+    (parseUint16 ([] : Bytes)).isSome = false ∧ (parseUint16 ([43, 56, 48] : Bytes) /- "+80" -/).isSome = false ∧
+    (parseUint16 ([45, 49] : Bytes) /- "-1" -/).isSome = false ∧ (parseUint16 ([104, 116, 116, 112] : Bytes) /- "http" -/).isSome = false ∧
+    (parseUint16 ([32, 56, 48] : Bytes) /- " 80" -/).isSome = false ∧ (parseUint16 ([56, 95, 48] : Bytes) /- "8_0" -/).isSome = false ∧
+    (parseUint16 ([48, 120, 53, 48] : Bytes) /- "0x50" -/).isSome = false := by decide
+
+/-- the host check of the code: not empty, no blank, no tab. -/
+theorem c14_host_check (h : Bytes) :
+    hostOk h = true ↔ (h ≠ [] ∧ (32 : UInt8) ∉ h ∧ (9 : UInt8) ∉ h) := by
+  unfold hostOk
+  cases h with
+  | nil => simp
+  | cons c t => simp [and_assoc]
+
+/-- "Malformed entries are rejected", at full strength: an entry is accepted exactly when the
+    decidable predicate `entryAddrWellFormed` holds of its text — it is empty, it is `DIRECT`, or
+    it is `<word> <host>:<port>` where `net.SplitHostPort` yields a non-empty host without blank or
+    tab and a port that is a decimal number ≤ 65535. -/
+theorem c14_accepted_iff_wellformed (s : Bytes) : (parseProxy s).isSome = entryAddrWellFormed s :=
+  parseProxy_isSome s
+
+/-- spelled out: what is rejected is an entry (blanks trimmed, not empty, not `DIRECT`) without a
+    blank, or whose address part `net.SplitHostPort` refuses, or whose host or port is not valid. -/
 theorem c14_malformed_rejected (s : Bytes) :
     parseProxy s = none ↔
       (trimSpace s ≠ [] ∧ trimSpace s ≠ kDIRECT ∧
         (cutAt 32 (trimSpace s) = none ∨
-          ∃ k hp, cutAt 32 (trimSpace s) = some (k, hp) ∧ splitHostPort hp = none)) := by
-  unfold parseProxy
+          ∃ k hp, cutAt 32 (trimSpace s) = some (k, hp) ∧
+            (splitHostPort hp = none ∨
+              ∃ h p, splitHostPort hp = some (h, p) ∧ (validHost h = false ∨ validPort p = false)))) := by
+  rw [parseProxy_eq]
   by_cases h1 : trimSpace s = []
   · simp [h1]
   · by_cases h2 : trimSpace s = kDIRECT
@@ -260,10 +312,51 @@ theorem c14_malformed_rejected (s : Bytes) :
       | some khp =>
         obtain ⟨k, hp⟩ := khp
         cases hs : splitHostPort hp with
-        | none => simp [hs]; exact ⟨k, hp, ⟨rfl, rfl⟩, hs⟩
-        | some x => simp [hs]
+        | none => simp [hs]; exact ⟨k, hp, ⟨rfl, rfl⟩, Or.inl hs⟩
+        | some x =>
+          obtain ⟨a, b⟩ := x
+          cases hva : validHost a <;> cases hvb : validPort b <;> simp [hs, hva, hvb]
+          · exact ⟨k, hp, ⟨rfl, rfl⟩, Or.inr ⟨a, b, hs, Or.inl hva⟩⟩
+          · exact ⟨k, hp, ⟨rfl, rfl⟩, Or.inr ⟨a, b, hs, Or.inl hva⟩⟩
+          · exact ⟨k, hp, ⟨rfl, rfl⟩, Or.inr ⟨a, b, hs, Or.inr hvb⟩⟩
 
-/-- … in particular an address without a colon (missing port) … -/
+/-- an accepted entry is mapped to DIRECT without an address (empty entry, `DIRECT`), or to the
+    host and port `net.SplitHostPort` makes of its address part — a valid host, a valid port — under
+    the mode of its first word. -/
+theorem c14_accepted_entry (s : Bytes) (q : Proxy) (h : parseProxy s = some q) :
+    (((trimSpace s).isEmpty = true ∨ trimSpace s = kDIRECT) ∧ q = ⟨.DIRECT, [], []⟩) ∨
+    (∃ k hp, cutAt 32 (trimSpace s) = some (k, hp) ∧ splitHostPort hp = some (q.host, q.port) ∧
+      q.mode = parseMode k ∧ validHost q.host = true ∧ validPort q.port = true) :=
+  parseProxy_parts s q h
+
+/-- hence every proxy `All` returns has no address at all or a non-empty blank-free host and a
+    decimal port ≤ 65535 … -/
+theorem c14_all_addresses_valid (s : Bytes) (ps : List Proxy) (h : proxiesAll s = some ps) (q : Proxy) (hq : q ∈ ps) :
+    (q.host = [] ∧ q.port = []) ∨
+      ((q.host ≠ [] ∧ (32 : UInt8) ∉ q.host ∧ (9 : UInt8) ∉ q.host) ∧
+       (q.port ≠ [] ∧ (∀ c ∈ q.port, isDigit c = true) ∧ decVal q.port ≤ 65535)) := by
+  unfold proxiesAll at h
+  by_cases he : s.isEmpty = true
+  · simp [he] at h; subst h; simp at hq
+  · simp only [he, Bool.false_eq_true, if_false] at h
+    obtain ⟨e, _, hpe⟩ := mapM_some_of_mem_result parseProxy _ ps h q hq
+    rcases parseProxy_parts e q hpe with ⟨_, hq0⟩ | ⟨k, hp, _, _, _, hvh, hvp⟩
+    · subst hq0; exact Or.inl ⟨rfl, rfl⟩
+    · refine Or.inr ⟨?_, ?_⟩
+      · rw [← hostOk_eq_validHost] at hvh; exact (c14_host_check q.host).mp hvh
+      · rw [← parseUint16_isSome] at hvp; exact (c14_port_check q.port).mp hvp
+
+/-- … and so has the proxy `First` returns. -/
+theorem c14_first_address_valid (s : Bytes) (q : Proxy) (h : proxiesFirst s = some q) : q.addrOk = true := by
+  unfold proxiesFirst at h
+  by_cases he : s.isEmpty = true
+  · simp [he] at h; subst h; rfl
+  · simp only [he, Bool.false_eq_true, if_false] at h
+    rcases parseProxy_parts _ q h with ⟨_, hq0⟩ | ⟨k, hp, _, _, _, hvh, hvp⟩
+    · subst hq0; rfl
+    · simp [Proxy.addrOk, hvh, hvp]
+
+/-- in particular an address without a colon (missing port) is refused … -/
 theorem c14_missing_port_rejected (hp : Bytes) (h : (58 : UInt8) ∉ hp) : splitHostPort hp = none := by
   unfold splitHostPort lastIndexOf
   rw [findIdx_none_of 58 hp.reverse (fun x hx e => h (e ▸ List.mem_reverse.mp hx))]
@@ -279,63 +372,72 @@ theorem c14_all_rejects (s e : Bytes) (hs : s ≠ []) (he : e ∈ splitOn 59 s) 
 example : proxiesAll ([80, 82, 79, 88, 89, 32, 97, 58, 56, 48, 59, 80, 82, 79, 88, 89, 32, 98] : Bytes) /- "PROXY a:80;PROXY b" -/ = none ∧ proxiesAll ([80, 82, 79, 88, 89] : Bytes) /- "PROXY" -/ = none ∧
     proxiesAll ([80, 82, 79, 88, 89, 32, 97, 58, 49, 58, 50] : Bytes) /- "PROXY a:1:2" -/ = none ∧ proxiesAll ([80, 82, 79, 88, 89, 32, 91, 58, 58, 49] : Bytes) /- "PROXY [::1" -/ = none := by decide
 
-/-- Full-strength statement of "malformed entries are rejected" against the grammar in the doc
-    comment of `pac.Proxies` (`<keyword> <host>:<port>` with a valid host and port, or `DIRECT`).
-    The unchanged code does NOT satisfy it (findings F30, (unknown keyword ⇒ DIRECT, documented)): see the witnesses below. -/
+/-- the shapes finding ([80, 82, 79, 88, 89, 32, 112, 58, 57, 57, 57, 57, 57] : Bytes) /- "PROXY p:99999" -/0 was about (accepted before the repair 96a61a7) are rejected: empty port,
+    non-numeric port, port out of range, signed port, empty host (plain and `[]`), blank or tab in the
+    host, blank in the port; an IPv6 literal needs its brackets. -/
+example : proxiesAll ([80, 82, 79, 88, 89, 32, 112, 114, 111, 120, 121, 46, 101, 120, 97, 109, 112, 108, 101, 46, 99, 111, 109, 58] : Bytes) /- "PROXY proxy.example.com:" -/ = none ∧ proxiesFirst ([80, 82, 79, 88, 89, 32, 112, 114, 111, 120, 121, 46, 101, 120, 97, 109, 112, 108, 101, 46, 99, 111, 109, 58] : Bytes) /- "PROXY proxy.example.com:" -/ = none ∧
+    proxiesAll ([80, 82, 79, 88, 89, 32, 112, 58, 104, 116, 116, 112] : Bytes) /- "PROXY p:http" -/ = none ∧ proxiesAll ([80, 82, 79, 88, 89, 32, 112, 58, 57, 57, 57, 57, 57] : Bytes) /- "PROXY p:99999" -/ = none ∧
+    proxiesAll ([80, 82, 79, 88, 89, 32, 112, 58, 54, 53, 53, 51, 54] : Bytes) /- "PROXY p:65536" -/ = none ∧ proxiesAll ([80, 82, 79, 88, 89, 32, 112, 58, 43, 56, 48] : Bytes) /- "PROXY p:+80" -/ = none ∧
+    proxiesAll ([80, 82, 79, 88, 89, 32, 58, 56, 48, 56, 48] : Bytes) /- "PROXY :8080" -/ = none ∧ proxiesAll ([80, 82, 79, 88, 89, 32, 91, 93, 58, 56, 48] : Bytes) /- "PROXY []:80" -/ = none ∧
+    proxiesAll ([80, 82, 79, 88, 89, 32, 32, 104, 58, 56, 48] : Bytes) /- "PROXY  h:80" -/ = none ∧ proxiesAll ([80, 82, 79, 88, 89, 32, 104, 9, 104, 58, 56, 48] : Bytes) /- "PROXY h	h:80" -/ = none ∧
+    proxiesAll ([80, 82, 79, 88, 89, 32, 104, 58, 32, 56, 48] : Bytes) /- "PROXY h: 80" -/ = none ∧ proxiesAll ([80, 82, 79, 88, 89, 32, 58, 58, 49, 58, 56, 48] : Bytes) /- "PROXY ::1:80" -/ = none ∧
+    proxiesAll ([80, 82, 79, 88, 89, 32, 97, 58, 56, 48, 59, 80, 82, 79, 88, 89, 32, 112, 58, 48, 120, 53, 48] : Bytes) /- "PROXY a:80;PROXY p:0x50" -/ = none := by decide
+
+/-- "Malformed entries are rejected" for whole result lists, at full strength: when `All` accepts a
+    list, the address part of every entry is well-formed (no hypothesis on the input). -/
+theorem c14_strict_addresses (s : Bytes) (ps : List Proxy) (hall : proxiesAll s = some ps) :
+    ∀ e, e ∈ splitOn 59 s → entryAddrWellFormed e = true := by
+  intro e he
+  unfold proxiesAll at hall
+  by_cases hs : s.isEmpty = true
+  · have : s = [] := by cases s <;> simp_all
+    subst this
+    simp [splitOn] at he
+    subst he
+    decide
+  · simp only [hs, Bool.false_eq_true, if_false] at hall
+    obtain ⟨p, hp⟩ := mapM_some_mem parseProxy _ ps hall e he
+    rw [← parseProxy_isSome, hp]; rfl
+
+/-- The grammar in the doc comment of `pac.Proxies` (`<keyword> <host>:<port>` with one of the six
+    proxy keywords, or `DIRECT`) taken literally also asks for a known keyword.  The code does NOT
+    satisfy that, for one reason only, which is documented behaviour and not a defect: an unknown
+    keyword is read as DIRECT (see the witness below; property C05 states it outright). -/
 def C14_strict_full_statement : Prop :=
   ∀ s ps, proxiesAll s = some ps → ∀ e, e ∈ splitOn 59 s → entryWellFormed e = true
 
-/-- what does hold: an accepted entry is well-formed provided its keyword is a known one (excludes
-    (unknown keyword ⇒ DIRECT, documented)) and the host and port the parser produced are valid (excludes F30). -/
-theorem c14_strict_partial (s : Bytes) (ps : List Proxy) (hall : proxiesAll s = some ps) (hs : s ≠ [])
-    (hk : ∀ e, e ∈ splitOn 59 s → ∀ k hp, cutAt 32 (trimSpace e) = some (k, hp) → isKeyword k = true)
-    (hv : ∀ e, e ∈ splitOn 59 s → ∀ p, parseProxy e = some p → ∀ k hp, cutAt 32 (trimSpace e) = some (k, hp) →
-      (validHost p.host = true ∧ validPort p.port = true)) :
+/-- what does hold: every accepted entry is well-formed by that grammar provided its first word is
+    one of the keywords (excludes unknown keyword ⇒ DIRECT, documented); nothing is assumed about
+    the address part any more (([80, 82, 79, 88, 89, 32, 112, 58, 57, 57, 57, 57, 57] : Bytes) /- "PROXY p:99999" -/0 repaired). -/
+theorem c14_strict_partial (s : Bytes) (ps : List Proxy) (hall : proxiesAll s = some ps)
+    (hk : ∀ e, e ∈ splitOn 59 s → ∀ k hp, cutAt 32 (trimSpace e) = some (k, hp) → isKeyword k = true) :
     ∀ e, e ∈ splitOn 59 s → entryWellFormed e = true := by
   intro e he
-  unfold proxiesAll at hall
-  have : s.isEmpty = false := by cases s <;> simp_all
-  simp only [this, Bool.false_eq_true, if_false] at hall
-  obtain ⟨p, hp⟩ := mapM_some_mem parseProxy _ ps hall e he
+  have ha := c14_strict_addresses s ps hall e he
   have hk' := hk e he
-  have hv' := hv e he p hp
-  unfold parseProxy at hp
+  unfold entryAddrWellFormed at ha
   unfold entryWellFormed
-  by_cases h1 : (trimSpace e).isEmpty = true
-  · simp [h1]
-  · by_cases h2 : (trimSpace e == kDIRECT) = true
-    · simp [h2]
-    · simp only [h1, h2, Bool.false_eq_true, if_false] at hp
-      simp only [h1, h2, Bool.false_or]
-      cases hc : cutAt 32 (trimSpace e) with
-      | none => simp [hc] at hp
-      | some khp =>
-        obtain ⟨k, hpp⟩ := khp
-        simp only [hc] at hp
-        cases hsp : splitHostPort hpp with
-        | none => simp [hsp] at hp
-        | some hpq =>
-          obtain ⟨h, q⟩ := hpq
-          simp only [hsp, Option.some.injEq] at hp
-          have := hv' k hpp hc
-          rw [← hp] at this
-          simp only [] at this
-          simp [hk' k hpp hc, hsp, this.1, this.2]
+  simp only [] at ha ⊢
+  cases hc : cutAt 32 (trimSpace e) with
+  | none => simpa [hc] using ha
+  | some khp =>
+    obtain ⟨k, hp⟩ := khp
+    simp only [hc] at ha ⊢
+    rw [hk' k hp hc, Bool.true_and]
+    exact ha
 
-/-- F30: an empty port is accepted (`PROXY proxy.example.com:`). -/
-theorem c14_strict_witness_hostport :
-    proxiesAll ([80, 82, 79, 88, 89, 32, 112, 114, 111, 120, 121, 46, 101, 120, 97, 109, 112, 108, 101, 46, 99, 111, 109, 58] : Bytes) /- "PROXY proxy.example.com:" -/ = some [⟨.PROXY, [112, 114, 111, 120, 121, 46, 101, 120, 97, 109, 112, 108, 101, 46, 99, 111, 109], []⟩] ∧
-    entryWellFormed ([80, 82, 79, 88, 89, 32, 112, 114, 111, 120, 121, 46, 101, 120, 97, 109, 112, 108, 101, 46, 99, 111, 109, 58] : Bytes) /- "PROXY proxy.example.com:" -/ = false := by decide
+example : proxiesAll ([80, 82, 79, 88, 89, 32, 97, 58, 56, 48, 59, 32, 83, 79, 67, 75, 83, 53, 32, 91, 58, 58, 49, 93, 58, 49, 48, 56, 48, 59, 68, 73, 82, 69, 67, 84] : Bytes) /- "PROXY a:80; SOCKS5 [::1]:1080;DIRECT" -/ = some [⟨.PROXY, [97], [56, 48]⟩, ⟨.SOCKS5, [58, 58, 49], [49, 48, 56, 48]⟩, ⟨.DIRECT, [], []⟩] ∧
+    (∀ e, e ∈ splitOn 59 ([80, 82, 79, 88, 89, 32, 97, 58, 56, 48, 59, 32, 83, 79, 67, 75, 83, 53, 32, 91, 58, 58, 49, 93, 58, 49, 48, 56, 48, 59, 68, 73, 82, 69, 67, 84] : Bytes) /- "PROXY a:80; SOCKS5 [::1]:1080;DIRECT" -/ → entryWellFormed e = true) := by decide
 
 /-- (unknown keyword ⇒ DIRECT, documented): a mis-spelt keyword is accepted and means DIRECT (`proxy p:8080`). -/
 theorem c14_strict_witness_keyword :
     proxiesAll ([112, 114, 111, 120, 121, 32, 112, 58, 56, 48, 56, 48] : Bytes) /- "proxy p:8080" -/ = some [⟨.DIRECT, [112], [56, 48, 56, 48]⟩] ∧
-    entryWellFormed ([112, 114, 111, 120, 121, 32, 112, 58, 56, 48, 56, 48] : Bytes) /- "proxy p:8080" -/ = false := by decide
+    entryWellFormed ([112, 114, 111, 120, 121, 32, 112, 58, 56, 48, 56, 48] : Bytes) /- "proxy p:8080" -/ = false ∧ entryAddrWellFormed ([112, 114, 111, 120, 121, 32, 112, 58, 56, 48, 56, 48] : Bytes) /- "proxy p:8080" -/ = true := by decide
 
 theorem c14_strict_full_statement_fails : ¬ C14_strict_full_statement := by
   intro h
   have := h ([112, 114, 111, 120, 121, 32, 112, 58, 56, 48, 56, 48] : Bytes) /- "proxy p:8080" -/ _ c14_strict_witness_keyword.1 ([112, 114, 111, 120, 121, 32, 112, 58, 56, 48, 56, 48] : Bytes) /- "proxy p:8080" -/ (by decide)
-  rw [c14_strict_witness_keyword.2] at this
+  rw [c14_strict_witness_keyword.2.1] at this
   exact Bool.false_ne_true this
 
 /-! ## 4. The pool: exclusive VMs, concurrent histories give the sequential answers -/
